@@ -1,6 +1,7 @@
 import Driver.Common
 import IoraModel.Model.HttpClientFraming
 import IoraModel.Model.HttpServerFraming
+import IoraModel.Model.HttpServerConn
 namespace Iora.Driver.Http
 open Iora Iora.Http Iora.Driver
 
@@ -69,23 +70,57 @@ structure Cl where
   st : Http.St := {}
   done : Bool := false
 
+/-- `req.params` in canonical order: sorted by key bytes, `k=v` in hex joined by `&` -/
+def showParams (ps : List (Bytes × Bytes)) : String :=
+  if ps.isEmpty then "-" else
+  let sorted := ps.mergeSort (fun a b => bytesLe a.1 b.1)
+  "&".intercalate (sorted.map fun kv => s!"{toHex kv.1}={toHex kv.2}")
+
 def showEv : Srv.Ev → List String
-  | .handled r path => [s!"R/{r.method}/{toHex path}/{showHeaders r.headers}/{digest r.body}", "S:200"]
+  | .handled r path => [s!"R/{r.method}/{toHex path}/{showHeaders r.headers}/{digest r.body}/{showParams (Srv.queryParams r.uri)}", "S:200"]
   | .optionsStar => ["S:200"]
   | .rejected s => [s!"S:{s}", "X"]
 
 def joinEvs (es : List String) : String := if es.isEmpty then "-" else ",".intercalate es
 
+/-- events of the worker threads / of the I/O thread in the outputs of one step -/
+def workerLine (outs : List Srv.Out) : List String := (Srv.workerEvs outs).flatMap showEv
+def ioLine : List Srv.Out → List String
+  | [] => []
+  | .refused _ :: t => "S:503" :: "X" :: ioLine t
+  | .ioClose :: t => "X" :: ioLine t
+  | _ :: t => ioLine t
+
+/-- server side of the driver: one session, and the pool oracle of the harness (`sv hold k` … `sv release`) -/
+structure Sv where
+  conn : Srv.Conn := {}
+  /-- `some k`: the free worker is parked and exactly `k` more `tryEnqueue` calls succeed -/
+  held : Option Nat := none
+
+/-- run every queued request (the harness waits for the pool to drain) -/
+def runWorkers : Nat → Srv.Conn → List Srv.Out → Srv.Conn × List Srv.Out
+  | 0, c, acc => (c, acc)
+  | f + 1, c, acc =>
+    if c.pending.isEmpty then (c, acc)
+    else let r := Srv.connWork c; runWorkers f r.1 (acc ++ r.2)
+
+def svLine (c : Srv.Conn) (outs : List Srv.Out) : String :=
+  s!"{joinEvs (workerLine outs)} | io={joinEvs (ioLine outs)} | buf={if c.sess.alive then c.sess.buffer.length else 0} alive={bit c.sess.alive}"
+
+def svData (s : Sv) (d : Bytes) : Sv × String :=
+  match s.held with
+  | some k =>
+    let (c1, outs, k') := Srv.connData s.conn d k
+    ({ conn := c1, held := some k' }, svLine c1 outs)
+  | none =>
+    -- not held: the queue is empty and far larger than anything one read can hold, every request is accepted and run
+    let (c1, outs, _) := Srv.connData s.conn d Gen.Http.serverPoolQueueSize
+    let (c2, outs2) := runWorkers (c1.pending.length + 1) c1 outs
+    ({ s with conn := c2 }, svLine c2 outs2)
+
 structure St where
   cl : Cl := {}
-  sv : Srv.Sess := {}
-
-def svData (s : Srv.Sess) (d : Bytes) : Srv.Sess × String :=
-  let (s1, evs, ioClosed) := Srv.handleIncomingData s d
-  let wevs := evs.flatMap showEv
-  let closed := ioClosed || wevs.contains "X"
-  let s2 : Srv.Sess := if closed then { buffer := [], alive := false } else s1
-  (s2, s!"{joinEvs wevs} | io={if ioClosed then "X" else "-"} | buf={s2.buffer.length} alive={bit s2.alive}")
+  sv : Sv := {}
 
 def clStep (c : Cl) (r : Recv) : Cl × String :=
   if c.done then (c, "done") else
@@ -143,6 +178,17 @@ def step (st : St) : List String → St × String
     match ofHex hx with
     | some d => let (s', o) := svData st.sv d; ({ st with sv := s' }, o)
     | none => (st, "bad-op")
+  | ["sv", "closed"] => ({ st with sv := { st.sv with conn := Srv.connClosed st.sv.conn } }, "ok")
+  | ["sv", "hold", k] =>
+    match k.toNat?, st.sv.held with
+    | some k, none => ({ st with sv := { st.sv with held := some (min k Gen.Http.serverPoolQueueSize) } }, "ok")
+    | _, _ => (st, "bad-op")
+  | ["sv", "release"] =>
+    match st.sv.held with
+    | none => (st, "bad-op")
+    | some _ =>
+      let (c2, outs2) := runWorkers (st.sv.conn.pending.length + 1) st.sv.conn []
+      ({ st with sv := { conn := c2, held := none } }, svLine c2 outs2)
   | ["fce", pos, hx] =>
     match pos.toNat?, ofHex hx with
     | some pos, some d =>
